@@ -77,7 +77,7 @@ KINDS = {
                           '[a∈ℬ(X1)] ∀b∈a ∃a∈X1 a=b', 'D{x∈X1 | F1[x]=X1}', 'F1[X1, X1]', '∀x∈X1 x∪x=x', 'R{a:=∅ | a∪{Pr1(a)}}'],
     'value-error': ['P2[D2, X1]', 'D2=X1', 'card(D2)', '{D2}', 'F1[ℬ(X1)]', 'debool(ℬ(X1))', '∀a∈D2 a=a', 'F4[D2, D2]'],
     'eval-error': ['debool(X1)', 'debool(X1\\X1)', '1∈Z', 'card(Z)', 'R{x:=0 | x<200000 | x+1}', 'D{x∈X1 | debool(D1)=x}', '∀x∈X1 debool({x,1})=x'],
-    'ascii': ['X1 \\union D1', '\\A x \\in X1 x \\in D1', 'D{x \\in X1 | x \\eq x}', 'B(X1)', 'X1*D1', 'card(X1) \\gr 1', 'X1 \\union', '\\A x X1'],
+    'ascii': ['2*3', 'X1*X1', 'card(X1)*2=6', 'X1 \\union D1', '\\A x \\in X1 x \\in D1', 'D{x \\in X1 | x \\eq x}', 'B(X1)', 'X1*D1', 'card(X1) \\gr 1', 'X1 \\union', '\\A x X1'],
     'empty': ['', ' ', '\n'],
     'props-calls': ['F7[ℬ(X1)]', 'F8[X1, ℬ(X1)]', 'F8[D1, ℬ(D1)]', 'F7[ℬ(D1)]', 'F7[X1×X1]', 'F7[X1]', 'F7[{X1}]', 'card(F7[ℬ(X1)])>F8[X1, ℬ(X1)]'],
     # failures found only by a later pass of an internal retry loop (recursion re-typing), and inputs whose only findings are warnings
@@ -94,6 +94,12 @@ def ops_for(text, obj):
     syn = 'UNDEF'
     return [dict({'op': 'rs.parse', 'text': text, 'syntax': syn, 'gen': True}, **extra),
             dict({'op': 'rs.check', 'ctx': 'c', 'text': text, 'syntax': syn}, **extra),
+            # the same text again under each explicit syntax (and back): what was kept from the previous call on this text
+            # must not depend on the syntax it was read in
+            dict({'op': 'rs.check', 'ctx': 'c', 'text': text, 'syntax': 'MATH'}, **extra),
+            dict({'op': 'rs.check', 'ctx': 'c', 'text': text, 'syntax': 'ASCII'}, **extra),
+            dict({'op': 'rs.parse', 'text': text, 'syntax': 'MATH', 'gen': True}, **extra),
+            dict({'op': 'rs.check', 'ctx': 'c', 'text': text, 'syntax': syn}, **extra),
             dict({'op': 'rs.eval', 'ctx': 'c', 'text': text, 'syntax': syn, 'withtype': False}, **extra)]
 
 
@@ -105,12 +111,12 @@ def sequence_case(spec, seq):
             ops.append({'op': 'rs.ctx.patch', 'ctx': 'c', 'spec': PATCHES[text]})
             plan.append(None)
             continue
-        for o in ops_for(text, 'h'):
+        for j, o in enumerate(ops_for(text, 'h')):
             ops.append(o)
-            plan.append(['h', k])
-        for o in ops_for(text, None):
+            plan.append(['h', k, j])
+        for j, o in enumerate(ops_for(text, None)):
             ops.append(o)
-            plan.append(['f', k])
+            plan.append(['f', k, j])
     return core.case(ops, kind='sequence', seq=seq, plan=plan)
 
 
@@ -207,8 +213,8 @@ def judge(res, cs, cr):
         if 'harness_error' in ev:
             res.harness_error(ev['harness_error'])
             return
-        who, k = pl
-        key = (k, op['op'])
+        who, k = pl[0], pl[1]
+        key = (k, pl[2] if len(pl) > 2 else op['op'])
         if who == 'h':
             held[key] = ev
         else:
